@@ -34,16 +34,13 @@ class ParseTree:
         start = []
         for i, son in enumerate(self.sons):
             end = [x.value for x in self.sons[i + 1:]]
-            derivation = []
             derivations = son.get_leftmost_derivation()
+            last_derivation = derivations[-1]
             if i != 0 and derivations and derivations[0]:
                 del derivations[0]
             for derivation in derivations:
                 res.append(start + derivation + end)
-            if derivation:
-                start = start + derivation
-            else:
-                start.append(son.value)
+            start = start + last_derivation
         return res
 
     def get_rightmost_derivation(self):
